@@ -80,6 +80,13 @@ def run(ck):
                 data = [r.choice([0, 1, 2, 7, 8, 9, 0x30, 0x31, 0x7F, 0x80, 0x84, 0x85, 0xFF, r.below(256)]) for _ in range(n)]
                 for node in ([1], [9]):
                     singles.append((ty, node, data))
+    # long messages (up to the 255-byte maximum) for every handled type and for queue-only types
+    for ty in types + [0x82, 0x95, 0xC6]:
+        for n in ([57, 60, 61, 64, 65, 100, 127, 128, 200, 247, 248] if not quick else [60, 65, 128, 248]):
+            data = [r.below(256) for _ in range(n)]
+            if ty == 0xA2: data[0] = 0; data[1] = 128          # multiple: 128 bits, bitmap present
+            if ty == 0x93: data[0] = 3; data[4] = 3             # vendor: two short strings
+            singles.append((ty, [1], data))
     def one(job):
         ty, node, data = job
         m = upmsg(node, 5, ty, data)
